@@ -39,7 +39,7 @@ def apply_edit(root, ent):
     return None
 
 
-def run_one(ent, repo, base):
+def run_one(ent, repo, base, neutral_props=None):
     name = ent["name"]
     root = os.path.join(base, name)
     res = {"name": name, "property": ent["property"], "expect": ent["expect"], "kind": ent["kind"]}
@@ -60,7 +60,7 @@ def run_one(ent, repo, base):
             res["status"] = "skipped"
             res["detail"] = "mutant does not compile: " + (r.stderr.strip().splitlines() or ["?"])[-1][:200]
             return res
-        props = ALL if ent["kind"] == "neutral" else [ent["property"]]
+        props = (neutral_props or ALL) if ent["kind"] == "neutral" else [ent["property"]]
         fired = []
         undecided = []
         for p in props:
@@ -83,6 +83,19 @@ def run_one(ent, repo, base):
     finally:
         shutil.rmtree(root, ignore_errors=True)
         shutil.rmtree(os.path.join(base, name + ".facts"), ignore_errors=True)
+
+
+def run_corpus(prop, repo="/repo", jobs=8):
+    """Sensitivity corpus for one property: its breaking edits plus every neutral edit, evaluated
+    against that property's rules only. Returns the list of result records."""
+    import mutants
+    ents = [e for e in mutants.M if e["property"] == prop or e["kind"] == "neutral"]
+    base = tempfile.mkdtemp(prefix="redo-mutants-")
+    try:
+        with ThreadPoolExecutor(max_workers=jobs) as ex:
+            return list(ex.map(lambda e: run_one(e, repo, base, neutral_props=[prop]), ents))
+    finally:
+        shutil.rmtree(base, ignore_errors=True)
 
 
 def main():
